@@ -131,6 +131,7 @@ def hard_call(fn, timeout_s):
     if pid == 0:
         code = 0
         try:
+            os.setsid()             # own process group: the parent kills the group (incl. a cvc5 grandchild)
             os.close(r)
             res = fn()
             data = pickle.dumps(res)
@@ -157,6 +158,10 @@ def hard_call(fn, timeout_s):
     finally:
         os.close(r)
         try:
+            os.killpg(pid, signal.SIGKILL)
+        except OSError:
+            pass
+        try:
             os.kill(pid, signal.SIGKILL)
         except OSError:
             pass
@@ -178,6 +183,11 @@ PREF = {}
 def model_values(model, inputs):
     from fractions import Fraction
     vals = {}
+    if hasattr(model, 'vals'):          # PseudoModel from a solver child
+        for name, var in inputs.items():
+            kind, v = model.vals.get(name, ('r', '0'))
+            vals[name] = v if kind != 'r' else str(Fraction(v))
+        return vals
     for name, var in inputs.items():
         v = model.eval(var, model_completion=True)
         if z3.is_int_value(v):
